@@ -279,7 +279,7 @@ func finish(c *mc.Check, total *mc.Report, seed int, start time.Time, machErr bo
 		"exhaustive":                    !total.Capped && len(total.MachErr) == 0,
 		"capped_jobs":                   total.CapNotes,
 		"jobs":                          len(total.Jobs),
-		"outcomes":                      total.Outcomes,
+		"outcome_examples":              topOutcomes(total.Outcomes, 10),
 		"extra":                         total.Extra,
 		"known_findings_matched":        knownList,
 		"notes":                         total.Notes,
@@ -314,6 +314,37 @@ func finish(c *mc.Check, total *mc.Report, seed int, start time.Time, machErr bo
 		return 2
 	}
 	return exit
+}
+
+// topOutcomes keeps the evidence file small: the n most frequent outcome
+// classes, each cut to 400 characters.
+func topOutcomes(m map[string]int64, n int) []map[string]any {
+	type kv struct {
+		k string
+		v int64
+	}
+	var l []kv
+	for k, v := range m {
+		l = append(l, kv{k, v})
+	}
+	sort.Slice(l, func(i, j int) bool {
+		if l[i].v != l[j].v {
+			return l[i].v > l[j].v
+		}
+		return l[i].k < l[j].k
+	})
+	if len(l) > n {
+		l = l[:n]
+	}
+	var out []map[string]any
+	for _, e := range l {
+		k := e.k
+		if len(k) > 400 {
+			k = k[:400] + "…"
+		}
+		out = append(out, map[string]any{"outcome": k, "executions": e.v})
+	}
+	return out
 }
 
 func scenName(j string) string {
